@@ -104,10 +104,16 @@ pub fn bind_next(
                         return new_loc_err(Error::OutOfListBounds{index: n});
                     }
 
-                    let lhs_val = &mut lock_deref!(items)[n as usize];
+                    // We apply the operation to a copy of the current item
+                    // so that the list isn't locked while the operation is
+                    // evaluated; the right-hand side, or the item itself, may
+                    // be this same list.
+                    let mut new_val = lock_deref!(items)[n as usize].clone();
 
-                    binary_operation_assign(lhs_val, rhs, op)
+                    binary_operation_assign(&mut new_val, rhs, op)
                         .context(BinOpAssignListIndexFailed)?;
+
+                    lock_deref!(items)[n as usize] = new_val;
 
                     Ok(())
                 },
